@@ -111,7 +111,7 @@ impl Mul<f64> for Duration {
         const MAX_PRECISION: i32 = 38;
 
         loop {
-            if (new_val.floor() - new_val).abs() < f64::EPSILON || p >= MAX_PRECISION {
+            if (new_val.floor() - new_val).abs() <= f64::EPSILON * new_val.abs() || p >= MAX_PRECISION {
                 // Yay, we've found the precision of this number (or we cannot represent more digits anyway)
                 break;
             }
@@ -123,7 +123,7 @@ impl Mul<f64> for Duration {
 
         Duration::from_total_nanoseconds(
             self.total_nanoseconds()
-                .saturating_mul(new_val as i128)
+                .saturating_mul(new_val.floor() as i128)
                 .saturating_div(10_i128.pow(p.try_into().unwrap())),
         )
     }
